@@ -70,7 +70,11 @@ def units_failure(ref, L, t, centre, w, unit):
         back = grm.do_transformation(fit, ref, center=centre)
     except Exception as e:  # noqa
         return 'raised %s: %s (unit %g)' % (type(e).__name__, e, unit)
-    if np.abs(back - peaks).max() > 1e-8 * sc:
+    # the design matrix (coordinates, 1) mixes the unit of length with the constant 1: its condition number grows as 1 / unit, and with it the
+    # round-off of the fit (inherent in the documented algorithm)
+    cpt_ = np.zeros(2) if centre is None else centre
+    condw = np.linalg.cond(np.hstack([ref - cpt_, np.ones((len(ref), 1))]) * (np.ones(len(ref)) if w is None else w)[:, None])
+    if np.abs(back - peaks).max() > (1e-8 + 1e-14 * condw) * sc:
         return 'coordinates in units of %g px: round trip misses the target points by %.4g (coordinates up to %.4g)' % (unit, np.abs(back - peaks).max(), sc)
     M = np.zeros((3, 3))
     M[0:2, 0:2], M[2, 0:2], M[2, 2] = L, t, 1
